@@ -184,7 +184,7 @@ pub fn check_in(ctx: &Ctx, c: &Collection, stats_queries: &std::cell::Cell<u64>)
 }
 
 fn cfg() -> GenCfg {
-    GenCfg { max_contig: 2500, max_samples: 4, many_samples_pct: 0, single_file: None, vary_presentation: false }
+    GenCfg { max_contig: 2500, max_samples: 4, many_samples_pct: 0, single_file: None, vary_presentation: false, swarm_pct: 0 }
 }
 
 pub fn run(ctx: &Ctx, stats: &mut Stats) {
